@@ -976,6 +976,9 @@ class SortValues(BaseSetIndexSortValues):
             upsample=self.upsample,
         )
         if presorted and self._npartitions_input == self.frame.npartitions:
+            if self.ignore_index:
+                # every partition is labeled from 0
+                return (None,) * (self.frame.npartitions + 1)
             return self.frame.divisions
         return (None,) * len(divisions)
 
@@ -1065,9 +1068,11 @@ class SortValues(BaseSetIndexSortValues):
                 _columns=self.by,
                 ascending=self.ascending,
                 na_position=self.na_position,
+                ignore_index=self.ignore_index,
             )
 
-        if isinstance(parent, Tail):
+        # the labels of the last rows depend on the length of the last partition
+        if isinstance(parent, Tail) and not self.ignore_index:
             return NLast(
                 self.frame,
                 n=parent.n,
@@ -1255,6 +1260,11 @@ class SortValuesBlockwise(Blockwise):
     @functools.cached_property
     def _meta(self):
         return self.frame._meta
+
+    def _divisions(self):
+        if self.sort_kwargs.get("ignore_index"):
+            return (None,) * (self.frame.npartitions + 1)
+        return super()._divisions()
 
 
 class SetIndexBlockwise(Blockwise):
